@@ -237,11 +237,12 @@ func c08Projects(ctx *Ctx, r *Rng) {
 	cases := 0
 	var cutProjects []Project
 	buildCorrespondenceFixtureProjects(ctx)
+	encProjects := c08Encodings(ctx)
 	defer func() {
 		// the catalog-construction model on the forests of multi-file projects (with single faults in some)
 		buildCorrespondenceProjects(ctx, cutProjects, "documents cut into included files (plain and with a line mutant in one file)")
 		// the composed model on the FILES of the same projects and of the include graphs (cycles, missing files, directories, JSIGHT)
-		projectFSCorrespondence(ctx, append(append(append([]Project{}, cutProjects...), includeGraphs(r.Fork())...), dagProjects...), "documents cut into included files (plain and with a line mutant in one file), include graphs, cycle-free include graphs with shared files")
+		projectFSCorrespondence(ctx, append(append(append(append([]Project{}, cutProjects...), includeGraphs(r.Fork())...), dagProjects...), encProjects...), "documents cut into included files (plain and with a line mutant in one file), include graphs, cycle-free include graphs with shared files")
 	}()
 	for i := 0; i < n && len(ctx.Violations) < 10; i++ {
 		m := GenModel(r)
@@ -514,4 +515,60 @@ func c08InMemoryRoot(ctx *Ctx) int {
 		}
 	}
 	return cases
+}
+
+// c08Encodings: what is checked of a file AS A WHOLE before its lexemes are read (it must be UTF-8) is checked of an
+// included file as of the root: bytes that are not UTF-8 — in a comment, an annotation, a description text, a schema
+// string, a parameter — written in the one-file document and moved into an included file (one and two levels down) must
+// give the same verdict.
+func c08Encodings(ctx *Ctx) []Project {
+	bads := []struct{ id, b string }{{"latin-1 e-acute", "caf\xe9"}, {"truncated sequence", "caf\xc3"}, {"lone continuation", "x\x80y"}, {"overlong", "\xc0\xaf"}, {"surrogate", "\xed\xa0\x80"}, {"valid", "café"}}
+	places := []struct{ id, block string }{
+		{"comment", "GET /cats # %s\n  200 any\n"},
+		{"block comment", "###\n%s\n###\nGET /cats\n  200 any\n"},
+		{"annotation", "GET /cats // %s\n  200 any\n"},
+		{"description", "GET /cats\n  Description\n    %s\n  200 any\n"},
+		{"schema string", "TYPE @t\n{\"a\": \"%s\"}\n"},
+		{"quoted parameter", "INFO\n  Title \"%s\"\n"},
+	}
+	var projects []Project
+	cases := 0
+	for _, pl := range places {
+		for _, bd := range bads {
+			blk := fmt.Sprintf(pl.block, bd.b)
+			one := "JSIGHT 0.3\nGET /dogs\n  200 any\n" + blk
+			r1 := RunProject(SingleFile([]byte(one)), false)
+			if r1.Panic != "" {
+				continue
+			}
+			variants := []Project{
+				{Files: map[string][]byte{"root.jst": []byte("JSIGHT 0.3\nGET /dogs\n  200 any\nINCLUDE cats.jst\n"), "cats.jst": []byte(blk)}, Root: "root.jst"},
+				{Files: map[string][]byte{"root.jst": []byte("JSIGHT 0.3\nGET /dogs\n  200 any\nINCLUDE parts/mid.jst\n"), "parts/mid.jst": []byte("INCLUDE cats.jst\n"), "parts/cats.jst": []byte(blk)}, Root: "root.jst"},
+				{Files: map[string][]byte{"root.jst": []byte("JSIGHT 0.3\nINCLUDE dogs.jst\n" + blk), "dogs.jst": []byte("GET /dogs\n  200 any\n")}, Root: "root.jst"},
+			}
+			for vi, p := range variants {
+				projects = append(projects, p)
+				r2 := RunProject(p, false)
+				cases++
+				var key []byte
+				for _, f := range p.Files {
+					key = append(key, f...)
+				}
+				ctx.Cov.Count(key, bd.id != "valid")
+				ctx.Cov.Hit("bytes that are not UTF-8 (" + pl.id + ") in an included file")
+				if r2.Panic != "" {
+					continue
+				}
+				if r1.Accepted() != r2.Accepted() {
+					in := projectInput(p)
+					in["op"] = "project"
+					in["one_file"] = hx([]byte(one))
+					ctx.Violate(Violation{Kind: "wrong-output", Site: "include", What: fmt.Sprintf("%s in a %s: the one-file document is %s; with the text moved into an included file (variant %d) the project is %s", bd.id, pl.id, r1.Verdict(), vi, r2.Verdict()),
+						Input: in, Observed: r2.Verdict(), Expected: r1.Verdict(), Signature: "include-encoding"})
+				}
+			}
+		}
+	}
+	ctx.Cov.Component("bytes that are not UTF-8 in a one-file document vs the same text in an included file", cases, len(ctx.Violations), "")
+	return projects
 }
